@@ -40,8 +40,9 @@ RULE = ("A: base model x switch vector -> source text; one case = one textually 
 MANIFEST_ENTRY = dict(
     level="exploration", design="DESIGN.md section 4 / C04",
     technique="translation validation by exhaustive enumeration of source renderings of structured models against an independent expression-tree evaluator",
-    text=("14 structured base models x all 2^k vectors of their meaning-preserving syntactic switches (quick k<=9 "
-          "per model plus all pairs over up to 21 switches; thorough k up to 16) and a pseudofunction table (8 "
+    text=("15 structured base models x all 2^k vectors of their meaning-preserving syntactic switches (quick: k=8 per "
+          "model, once with the other switches all off and once all on, plus every vector within Hamming distance 2 "
+          "of all-off / all-on over up to 21 relevant switches; thorough: k=13..15) and a pseudofunction table (8 "
           "pseudofunctions x argument trees to depth 2 x 5 shifts x 3 contexts) are parsed by the real model "
           "parser; names per kind in declared order, descriptions, log status and the value of every dynamic and "
           "steady equation at scalar and vector dates are compared with the generating structure evaluated by "
@@ -57,6 +58,9 @@ ASSUMPTIONS = [
     "a control variable spelled ?(c) is never followed directly by a curly time shift (that spelling is rejected loudly and is not generated)",
     "substitution references are not generated inside pseudofunction arguments",
     "whitespace is not generated between the sign and the digits of a pseudofunction shift argument",
+    "#! / %! comments (kept until the model parser) are generated only between statements and declared names, never inside an expression",
+    "the expected-rejection list is decided from the rendered argument text alone; an argument on the list that is nevertheless accepted must still evaluate correctly",
+    "quick tier: depth-2 pseudofunction arguments use the leaf set {x, y[+1]}, operators {+,*,/,neg,log}, shifts {default,-2,+2} and one of the 3 contexts in rotation; thorough uses {x, y[+1], a}, all operators, all 5 shifts and all 3 contexts",
 ]
 
 NCOL = 28
@@ -109,8 +113,8 @@ def ref_value(tr, table, t):
         return float(table[name][0 if tt is None else tt])
     try:
         v = X.ev(tr, get, t)
-    except (ValueError, ZeroDivisionError, OverflowError):
-        return None
+    except (ValueError, ZeroDivisionError, OverflowError, TypeError):
+        return None          # TypeError: a negative base raised to a fractional power went complex
     if isinstance(v, complex) or not math.isfinite(v):
         return None
     return float(v)
@@ -227,10 +231,10 @@ def _flat(x):
     return x if isinstance(x, tuple) else float(x)
 
 
-def check_program(name, sw, seed, res, baseline=None):
+def check_program(name, sw, seed, res, baseline=None, rendered=None):
     """render one program, run it, compare.  Returns the observation (for the metamorphic check)."""
     spec, exp = expected(name, seed)
-    src, context, facts = G.render_facts(spec, sw)
+    src, context, facts = rendered if rendered is not None else G.render_facts(spec, sw)
     case = {"part": "model", "model": name, "switches": {k: v for k, v in sw.items() if v}, "seed": seed}
 
     def bad(check, detail="", **extra):
@@ -332,8 +336,8 @@ def shard_models(item, res, ctx):
     seen = set()
     for sw in vectors_of_item(item):
         full = dict(zero, **sw)
-        src, _ = G.render(spec, full)
-        h = engine.short_hash(src)
+        rendered = G.render_facts(spec, full)
+        h = engine.short_hash(rendered[0])
         res.count("vectors_enumerated")
         if h in seen:
             res.count("vectors_with_text_already_seen_in_shard")
@@ -341,7 +345,7 @@ def shard_models(item, res, ctx):
         seen.add(h)
         res.ev()
         nv = res.violation_total
-        obs = check_program(name, full, ctx.seed, res, baseline=base_obs)
+        obs = check_program(name, full, ctx.seed, res, baseline=base_obs, rendered=rendered)
         if obs is not None:
             res.nt(("A", name, h))
             res.cls("texts:" + name, h)
@@ -360,6 +364,7 @@ def shard_models(item, res, ctx):
 
 PFS = ["diff", "diff_log", "pct", "roc", "mov_sum", "mov_avg", "mov_prod", "shift"]
 SHIFTS = [None, -1, -2, -4, 2]
+QUICK_DEPTH2_SHIFTS = [None, -2, 2]
 CONTEXTS = ["{}", "x[-1]-{}", "2*{}^2"]
 BATCH = 16
 
@@ -594,7 +599,7 @@ PRIORITY = {
     "ifseq": ["if", "curly", "lcom", "bcom", "cont", "ws", "walrus", "order", "kw_short", "noplus", "sep", "kw_under", "sep2"],
     "funcs": ["ws", "curly", "cont", "bcom", "lcom", "walrus", "if", "order", "noplus", "kw_short", "sep", "kw_under", "sep2"],
 }
-QUICK_K = 9
+QUICK_K = 8
 THOROUGH_K = 14
 THOROUGH_K_MODEL = {"names": 13, "pf_basic": 13, "mixed": 15, "forfam": 15}
 
@@ -643,7 +648,7 @@ def build_pf_shards(ctx):
     cases = []
     for depth, arg in args:
         for pf in PFS:
-            for k in SHIFTS:
+            for k in (SHIFTS if (depth <= 1 or not ctx.quick) else QUICK_DEPTH2_SHIFTS):
                 ctxs = range(len(CONTEXTS)) if (depth <= 1 or not ctx.quick) else (len(cases) % 3,)
                 for c in ctxs:
                     cases.append((pf, arg, k, c))
@@ -679,19 +684,20 @@ def run(ctx, total, info):
     info["bound_completed"] = {"switches_full_product_per_model": {k: len(v["full_product_over"]) for k, v in plan.items()},
                                "pairwise_over_all_relevant_switches": True, "pf_argument_depth": 2}
     info["space"] = {"base_models": len(plan), "plan": plan, "pseudofunction_table": pplan,
-                     "switches": G.SWITCHES, "pf_contexts": CONTEXTS, "pf_shifts": ["default", -1, -2, -4, 2]}
+                     "switches": G.SWITCHES, "pf_contexts": CONTEXTS, "pf_shifts": ["default", -1, -2, -4, 2],
+                     "pf_shifts_quick_depth2": ["default", -2, 2] if ctx.quick else None}
     info["rejected_by_implementation"] = {k: v for k, v in c.items() if k.startswith("pf_rejected") or k.startswith("rejected")}
     texts = sum(len(v) for k, v in total.classes.items() if k.startswith("texts:"))
     on_min = min([c.get("on:" + s, 0) for s in G.SWITCHES])
     q = ctx.quick
     info["measured"] = {"textually_distinct_accepted_sources": texts, "least_used_switch_on_count": on_min}
     info["floors"] = {
-        "accepted_renderings": (c.get("accepted_renderings", 0), 8000 if q else 150000),
-        "textually_distinct_accepted_sources": (texts, 7500 if q else 140000),
-        "renderings_fully_agreeing": (c.get("renderings_fully_agreeing", 0), 7500 if q else 140000),
+        "accepted_renderings": (c.get("accepted_renderings", 0), 5000 if q else 170000),
+        "textually_distinct_accepted_sources": (texts, 4600 if q else 148000),
+        "renderings_fully_agreeing": (c.get("renderings_fully_agreeing", 0), 4800 if q else 165000),
         "models_with_200_distinct_texts": (sum(1 for k, v in total.classes.items() if k.startswith("texts:") and len(v) >= 200), len(plan)),
-        "least_used_switch_on_count": (on_min, 500 if q else 10000),
-        "pf_cases_exact": (c.get("pf_cases_exact", 0), 26000 if q else 800000),
+        "least_used_switch_on_count": (on_min, 400 if q else 15000),
+        "pf_cases_exact": (c.get("pf_cases_exact", 0), 19000 if q else 850000),
         "pf_rejections_of_known_limits_seen": (sum(v for k, v in c.items() if k.startswith("pf_rejected_allowed:")), 600),
     }
 
